@@ -22,10 +22,10 @@ package openapiv3
 //@   ensures lte: r != nil ==> ite(r.HasLte(), schema.Maximum != nil && deref(schema.Maximum) == toReal(r.GetLte()), schema.Maximum == old(schema.Maximum))
 //@   ensures gt: r != nil ==> ite(r.HasGt(), spec.exclMinActive(schema) && schema.ExclusiveMinimum.B == toReal(r.GetGt()), schema.ExclusiveMinimum == old(schema.ExclusiveMinimum))
 //@   ensures lt: r != nil ==> ite(r.HasLt(), spec.exclMaxActive(schema) && schema.ExclusiveMaximum.B == toReal(r.GetLt()), schema.ExclusiveMaximum == old(schema.ExclusiveMaximum))
-//@   ensures const: r != nil ==> ite(r.HasConst(), schema.Const != nil && schema.Const.Kind == yaml.ScalarNode && schema.Const.Tag == "" && schema.Const.Value == strconv.Itoa(int(r.GetConst())), schema.Const == old(schema.Const))
-//@   ensures in: r != nil && len(r.GetIn()) > 0 ==> len(schema.Enum) == len(r.GetIn()) && (forall k int :: 0 <= k && k < len(schema.Enum) ==> schema.Enum[k] != nil && schema.Enum[k].Kind == yaml.ScalarNode && schema.Enum[k].Tag == "" && schema.Enum[k].Value == strconv.Itoa(int(r.GetIn()[k])))
+//@   ensures const: r != nil ==> ite(r.HasConst(), schema.Const != nil && schema.Const.Kind == yaml.ScalarNode && schema.Const.Tag == "" && spec.yamlNumber(schema.Const.Value) == toReal(r.GetConst()), schema.Const == old(schema.Const))
+//@   ensures in: r != nil && len(r.GetIn()) > 0 ==> len(schema.Enum) == len(r.GetIn()) && (forall k int :: 0 <= k && k < len(schema.Enum) ==> schema.Enum[k] != nil && schema.Enum[k].Kind == yaml.ScalarNode && schema.Enum[k].Tag == "" && spec.yamlNumber(schema.Enum[k].Value) == toReal(r.GetIn()[k]))
 //@   ensures noin: r != nil && len(r.GetIn()) == 0 ==> schema.Enum == old(schema.Enum)
-//@   loop 1 invariant len(schema.Enum) == _i && (forall k int :: 0 <= k && k < len(schema.Enum) ==> schema.Enum[k] != nil && schema.Enum[k].Kind == yaml.ScalarNode && schema.Enum[k].Tag == "" && schema.Enum[k].Value == strconv.Itoa(int(int32Constraints.GetIn()[k])))
+//@   loop 1 invariant len(schema.Enum) == _i && (forall k int :: 0 <= k && k < len(schema.Enum) ==> schema.Enum[k] != nil && schema.Enum[k].Kind == yaml.ScalarNode && schema.Enum[k].Tag == "" && spec.yamlNumber(schema.Enum[k].Value) == toReal(int32Constraints.GetIn()[k]))
 
 //@ func applyInt64Constraints(constraints *validate.FieldRules, schema *base.Schema)
 //@   requires schema != nil
@@ -36,10 +36,10 @@ package openapiv3
 //@   ensures lte: r != nil ==> ite(r.HasLte(), schema.Maximum != nil && deref(schema.Maximum) == float64(r.GetLte()), schema.Maximum == old(schema.Maximum))
 //@   ensures gt: r != nil ==> ite(r.HasGt(), spec.exclMinActive(schema) && schema.ExclusiveMinimum.B == float64(r.GetGt()), schema.ExclusiveMinimum == old(schema.ExclusiveMinimum))
 //@   ensures lt: r != nil ==> ite(r.HasLt(), spec.exclMaxActive(schema) && schema.ExclusiveMaximum.B == float64(r.GetLt()), schema.ExclusiveMaximum == old(schema.ExclusiveMaximum))
-//@   ensures const: r != nil ==> ite(r.HasConst(), schema.Const != nil && schema.Const.Kind == yaml.ScalarNode && schema.Const.Tag == "" && schema.Const.Value == strconv.FormatInt(r.GetConst(), 10), schema.Const == old(schema.Const))
-//@   ensures in: r != nil && len(r.GetIn()) > 0 ==> len(schema.Enum) == len(r.GetIn()) && (forall k int :: 0 <= k && k < len(schema.Enum) ==> schema.Enum[k] != nil && schema.Enum[k].Kind == yaml.ScalarNode && schema.Enum[k].Tag == "" && schema.Enum[k].Value == strconv.FormatInt(r.GetIn()[k], 10))
+//@   ensures const: r != nil ==> ite(r.HasConst(), schema.Const != nil && schema.Const.Kind == yaml.ScalarNode && schema.Const.Tag == "" && spec.yamlNumber(schema.Const.Value) == toReal(r.GetConst()), schema.Const == old(schema.Const))
+//@   ensures in: r != nil && len(r.GetIn()) > 0 ==> len(schema.Enum) == len(r.GetIn()) && (forall k int :: 0 <= k && k < len(schema.Enum) ==> schema.Enum[k] != nil && schema.Enum[k].Kind == yaml.ScalarNode && schema.Enum[k].Tag == "" && spec.yamlNumber(schema.Enum[k].Value) == toReal(r.GetIn()[k]))
 //@   ensures noin: r != nil && len(r.GetIn()) == 0 ==> schema.Enum == old(schema.Enum)
-//@   loop 1 invariant len(schema.Enum) == _i && (forall k int :: 0 <= k && k < len(schema.Enum) ==> schema.Enum[k] != nil && schema.Enum[k].Kind == yaml.ScalarNode && schema.Enum[k].Tag == "" && schema.Enum[k].Value == strconv.FormatInt(int64Constraints.GetIn()[k], 10))
+//@   loop 1 invariant len(schema.Enum) == _i && (forall k int :: 0 <= k && k < len(schema.Enum) ==> schema.Enum[k] != nil && schema.Enum[k].Kind == yaml.ScalarNode && schema.Enum[k].Tag == "" && spec.yamlNumber(schema.Enum[k].Value) == toReal(int64Constraints.GetIn()[k]))
 
 //@ func applyFloatConstraints(constraints *validate.FieldRules, schema *base.Schema)
 //@   requires schema != nil
@@ -50,10 +50,10 @@ package openapiv3
 //@   ensures lte: r != nil ==> ite(r.HasLte(), schema.Maximum != nil && deref(schema.Maximum) == float64(r.GetLte()), schema.Maximum == old(schema.Maximum))
 //@   ensures gt: r != nil ==> ite(r.HasGt(), spec.exclMinActive(schema) && schema.ExclusiveMinimum.B == float64(r.GetGt()), schema.ExclusiveMinimum == old(schema.ExclusiveMinimum))
 //@   ensures lt: r != nil ==> ite(r.HasLt(), spec.exclMaxActive(schema) && schema.ExclusiveMaximum.B == float64(r.GetLt()), schema.ExclusiveMaximum == old(schema.ExclusiveMaximum))
-//@   ensures const: r != nil ==> ite(r.HasConst(), schema.Const != nil && schema.Const.Kind == yaml.ScalarNode && schema.Const.Tag == "" && schema.Const.Value == fmt.Sprintf("%g", r.GetConst()), schema.Const == old(schema.Const))
-//@   ensures in: r != nil && len(r.GetIn()) > 0 ==> len(schema.Enum) == len(r.GetIn()) && (forall k int :: 0 <= k && k < len(schema.Enum) ==> schema.Enum[k] != nil && schema.Enum[k].Kind == yaml.ScalarNode && schema.Enum[k].Tag == "" && schema.Enum[k].Value == fmt.Sprintf("%g", r.GetIn()[k]))
+//@   ensures const: r != nil ==> ite(r.HasConst(), schema.Const != nil && schema.Const.Kind == yaml.ScalarNode && schema.Const.Tag == "" && spec.yamlNumber(schema.Const.Value) == toReal(r.GetConst()), schema.Const == old(schema.Const))
+//@   ensures in: r != nil && len(r.GetIn()) > 0 ==> len(schema.Enum) == len(r.GetIn()) && (forall k int :: 0 <= k && k < len(schema.Enum) ==> schema.Enum[k] != nil && schema.Enum[k].Kind == yaml.ScalarNode && schema.Enum[k].Tag == "" && spec.yamlNumber(schema.Enum[k].Value) == toReal(r.GetIn()[k]))
 //@   ensures noin: r != nil && len(r.GetIn()) == 0 ==> schema.Enum == old(schema.Enum)
-//@   loop 1 invariant len(schema.Enum) == _i && (forall k int :: 0 <= k && k < len(schema.Enum) ==> schema.Enum[k] != nil && schema.Enum[k].Kind == yaml.ScalarNode && schema.Enum[k].Tag == "" && schema.Enum[k].Value == fmt.Sprintf("%g", floatConstraints.GetIn()[k]))
+//@   loop 1 invariant len(schema.Enum) == _i && (forall k int :: 0 <= k && k < len(schema.Enum) ==> schema.Enum[k] != nil && schema.Enum[k].Kind == yaml.ScalarNode && schema.Enum[k].Tag == "" && spec.yamlNumber(schema.Enum[k].Value) == toReal(floatConstraints.GetIn()[k]))
 
 //@ func applyDoubleConstraints(constraints *validate.FieldRules, schema *base.Schema)
 //@   requires schema != nil
@@ -64,10 +64,10 @@ package openapiv3
 //@   ensures lte: r != nil ==> ite(r.HasLte(), schema.Maximum != nil && deref(schema.Maximum) == float64(r.GetLte()), schema.Maximum == old(schema.Maximum))
 //@   ensures gt: r != nil ==> ite(r.HasGt(), spec.exclMinActive(schema) && schema.ExclusiveMinimum.B == float64(r.GetGt()), schema.ExclusiveMinimum == old(schema.ExclusiveMinimum))
 //@   ensures lt: r != nil ==> ite(r.HasLt(), spec.exclMaxActive(schema) && schema.ExclusiveMaximum.B == float64(r.GetLt()), schema.ExclusiveMaximum == old(schema.ExclusiveMaximum))
-//@   ensures const: r != nil ==> ite(r.HasConst(), schema.Const != nil && schema.Const.Kind == yaml.ScalarNode && schema.Const.Tag == "" && schema.Const.Value == fmt.Sprintf("%g", r.GetConst()), schema.Const == old(schema.Const))
-//@   ensures in: r != nil && len(r.GetIn()) > 0 ==> len(schema.Enum) == len(r.GetIn()) && (forall k int :: 0 <= k && k < len(schema.Enum) ==> schema.Enum[k] != nil && schema.Enum[k].Kind == yaml.ScalarNode && schema.Enum[k].Tag == "" && schema.Enum[k].Value == fmt.Sprintf("%g", r.GetIn()[k]))
+//@   ensures const: r != nil ==> ite(r.HasConst(), schema.Const != nil && schema.Const.Kind == yaml.ScalarNode && schema.Const.Tag == "" && spec.yamlNumber(schema.Const.Value) == toReal(r.GetConst()), schema.Const == old(schema.Const))
+//@   ensures in: r != nil && len(r.GetIn()) > 0 ==> len(schema.Enum) == len(r.GetIn()) && (forall k int :: 0 <= k && k < len(schema.Enum) ==> schema.Enum[k] != nil && schema.Enum[k].Kind == yaml.ScalarNode && schema.Enum[k].Tag == "" && spec.yamlNumber(schema.Enum[k].Value) == toReal(r.GetIn()[k]))
 //@   ensures noin: r != nil && len(r.GetIn()) == 0 ==> schema.Enum == old(schema.Enum)
-//@   loop 1 invariant len(schema.Enum) == _i && (forall k int :: 0 <= k && k < len(schema.Enum) ==> schema.Enum[k] != nil && schema.Enum[k].Kind == yaml.ScalarNode && schema.Enum[k].Tag == "" && schema.Enum[k].Value == fmt.Sprintf("%g", doubleConstraints.GetIn()[k]))
+//@   loop 1 invariant len(schema.Enum) == _i && (forall k int :: 0 <= k && k < len(schema.Enum) ==> schema.Enum[k] != nil && schema.Enum[k].Kind == yaml.ScalarNode && schema.Enum[k].Tag == "" && spec.yamlNumber(schema.Enum[k].Value) == toReal(doubleConstraints.GetIn()[k]))
 
 //@ func applyRepeatedConstraints(constraints *validate.FieldRules, schema *base.Schema)
 //@   requires schema != nil
@@ -102,3 +102,16 @@ package openapiv3
 //@ func checkIfFieldRequired(field *protogen.Field) (r bool)
 //@   pure
 //@   ensures r == (spec.hasRules(field) && spec.fieldRules(field).GetRequired())
+
+//@ func extractValidationConstraints(field *protogen.Field, schema *base.Schema)
+//@   requires schema != nil
+//@   modifies schema.Minimum, schema.Maximum, schema.ExclusiveMinimum, schema.ExclusiveMaximum, schema.Const, schema.Enum, schema.MinLength, schema.MaxLength, schema.Pattern, schema.Format, schema.MinItems, schema.MaxItems, schema.UniqueItems, schema.MinProperties, schema.MaxProperties
+//@   ensures no_rules: !spec.hasRules(field) ==> schema.Minimum == old(schema.Minimum) && schema.Maximum == old(schema.Maximum) && schema.ExclusiveMinimum == old(schema.ExclusiveMinimum) && schema.ExclusiveMaximum == old(schema.ExclusiveMaximum) && schema.Const == old(schema.Const) && schema.Enum == old(schema.Enum) && schema.MinLength == old(schema.MinLength) && schema.MaxLength == old(schema.MaxLength) && schema.Pattern == old(schema.Pattern) && schema.Format == old(schema.Format) && schema.MinItems == old(schema.MinItems) && schema.MaxItems == old(schema.MaxItems) && schema.UniqueItems == old(schema.UniqueItems) && schema.MinProperties == old(schema.MinProperties) && schema.MaxProperties == old(schema.MaxProperties)
+//@   ensures int32_dispatch: spec.hasRules(field) && field.Desc.Kind() == protoreflect.Int32Kind && spec.fieldRules(field).GetInt32() != nil && spec.fieldRules(field).GetInt32().HasLte() ==> schema.Maximum != nil && deref(schema.Maximum) == toReal(spec.fieldRules(field).GetInt32().GetLte())
+//@   ensures int64_dispatch: spec.hasRules(field) && field.Desc.Kind() == protoreflect.Int64Kind && spec.fieldRules(field).GetInt64() != nil && spec.fieldRules(field).GetInt64().HasGte() ==> schema.Minimum != nil
+//@   ensures double_dispatch: spec.hasRules(field) && field.Desc.Kind() == protoreflect.DoubleKind && spec.fieldRules(field).GetDouble() != nil && spec.fieldRules(field).GetDouble().HasGte() ==> schema.Minimum != nil && deref(schema.Minimum) == spec.fieldRules(field).GetDouble().GetGte()
+//@   ensures float_dispatch: spec.hasRules(field) && field.Desc.Kind() == protoreflect.FloatKind && spec.fieldRules(field).GetFloat() != nil && spec.fieldRules(field).GetFloat().HasGte() ==> schema.Minimum != nil
+//@   ensures string_dispatch: spec.hasRules(field) && field.Desc.Kind() == protoreflect.StringKind && spec.fieldRules(field).GetString() != nil && spec.fieldRules(field).GetString().HasMaxLen() ==> schema.MaxLength != nil
+//@   ensures repeated_dispatch: spec.hasRules(field) && field.Desc.IsList() && spec.fieldRules(field).GetRepeated() != nil && spec.fieldRules(field).GetRepeated().HasMinItems() ==> schema.MinItems != nil
+//@   ensures map_dispatch: spec.hasRules(field) && field.Desc.IsMap() && spec.fieldRules(field).GetMap() != nil && spec.fieldRules(field).GetMap().HasMinPairs() ==> schema.MinProperties != nil
+//@   ensures other_kinds_translated: spec.hasRules(field) ==> (field.Desc.Kind() == protoreflect.Sint32Kind && spec.fieldRules(field).GetSint32() != nil && spec.fieldRules(field).GetSint32().HasLte() ==> schema.Maximum != nil) && (field.Desc.Kind() == protoreflect.Sfixed32Kind && spec.fieldRules(field).GetSfixed32() != nil && spec.fieldRules(field).GetSfixed32().HasLte() ==> schema.Maximum != nil) && (field.Desc.Kind() == protoreflect.Uint32Kind && spec.fieldRules(field).GetUint32() != nil && spec.fieldRules(field).GetUint32().HasLte() ==> schema.Maximum != nil) && (field.Desc.Kind() == protoreflect.Fixed32Kind && spec.fieldRules(field).GetFixed32() != nil && spec.fieldRules(field).GetFixed32().HasLte() ==> schema.Maximum != nil) && (field.Desc.Kind() == protoreflect.Sint64Kind && spec.fieldRules(field).GetSint64() != nil && spec.fieldRules(field).GetSint64().HasLte() ==> schema.Maximum != nil) && (field.Desc.Kind() == protoreflect.Sfixed64Kind && spec.fieldRules(field).GetSfixed64() != nil && spec.fieldRules(field).GetSfixed64().HasLte() ==> schema.Maximum != nil) && (field.Desc.Kind() == protoreflect.Uint64Kind && spec.fieldRules(field).GetUint64() != nil && spec.fieldRules(field).GetUint64().HasLte() ==> schema.Maximum != nil) && (field.Desc.Kind() == protoreflect.Fixed64Kind && spec.fieldRules(field).GetFixed64() != nil && spec.fieldRules(field).GetFixed64().HasLte() ==> schema.Maximum != nil)
